@@ -9,11 +9,11 @@ import itertools, json, math, numpy as np
 from harness.common import *
 import vlib
 
-LEVEL_TEXT = ('Lean 4 theorems, for all shapes/offsets/data and any number of overlapping fields: Wavefront.intensity is |Wavefront.field|^2 '
+LEVEL_TEXT = ('Lean 4 theorems, for all shapes/offsets/data and any number of overlapping fields (the plane statements under the hypothesis that no segment bounding box and no multiplied field has exactly one element: hbig / h1, see LEVEL_NOTE): Wavefront.intensity is |Wavefront.field|^2 '
               'sample by sample; Wavefront.insert adds weight*intensity and nothing else; Plane.multiply multiplies the embedded field by '
               'amplitude*exp(2 pi i opd/lambda) inside the mask and by 0 outside, for scalar/array amplitude, OPD and mask in every '
               'combination (explicit Complex.exp for any segment list and for scalar masks); wavelength is handed over unchanged, the focal length passes through a plane unchanged when truthy and becomes inf when None/0 (generated Wavefront.__init__ rule), a Pupil hands over its focal length, the default plane is the identity, '
-              '_mul_pixelscale (regenerated from plane.py on every run) refuses exactly the defined-and-different pairs, independently of the unit of length; the phase argument, the metadata hand-over of Plane/Pupil/Image.multiply and the wiring of the three views (which goes through reduce, intensity flag, weight) are regenerated from the source and consumed by the model; insert/intensity of the model always return (C06 reduce_defined; the code additionally hits the Python recursion limit in _disjoint at about 1000 mutually overlapping fields). The array plumbing '
+              '_mul_pixelscale (regenerated from plane.py on every run) refuses exactly the defined-and-different pairs, independently of the unit of length; the phase argument, the metadata hand-over of Plane/Pupil/Image.multiply and the wiring of the three views (which goes through reduce, intensity flag, weight) are regenerated from the source and consumed by the model; insert/intensity always return (C06 reduce_defined). The array plumbing '
               'is a hand model checked against the implementation on exact and floating-point data.')
 LEVEL_NOTE = ('Partial: (1) fields/segments with exactly one element are excluded by hypothesis (lentil treats every size-1 array as a '
               'broadcastable scalar; open known finding KF-C07-one-pixel-segment, which includes one-sample fields off centre under a default plane; not repaired because C06 as given makes a (1,1) array a broadcastable constant: the two properties conflict on that input and the code follows C06); '
@@ -45,7 +45,6 @@ UNPROVEN = ['fields and segment phasors with exactly one element are outside the
             'the plane-type admission test of Plane.multiply (C08) and tilt bookkeeping (C04) are not part of this model',
             'the constructor\'s mask normalisation (mask != 0, mask=None -> amplitude) is applied by the harness before the model sees the plane (Plane.__init__ is pinned)']
 ASSUMPTIONS = ['accumulation targets of Wavefront.insert are float64 arrays (an int64 target raises NumPy\'s casting error, float32 rounds)',
-               'fewer than about 990 mutually overlapping fields (Python recursion limit in field._disjoint)',
                'every segment bounding box and every intermediate field that is multiplied by a further plane has more than one element (a propagation window of a single output sample is generated: the views of one-element fields are defined since the repo fix of _merge_shape)',
                'attribute arrays have the shape of the mask (otherwise NumPy raises or broadcasts; malformed input)']
 
